@@ -358,4 +358,37 @@ def spelled(inp):
     return clause, cand, R.admits(op, v, wild, c, raw)
 
 
-PROP = C03()
+from srccall import with_src  # noqa: E402
+
+# translated source: the helpers of `==V.*` / `~=V` and the eight per-operator comparison methods are proved equal to
+# the model functions the theorems use (S.versionSplit / padVersion / compareLT ... compareCompatible); `Version(...)` is
+# the run-time primitive backed by V.scan, and the rich comparisons of _BaseVersion go through Python's generic tuple
+# comparison of the `_key`s, proved equal to the model's keyCmp / keyEq (PkgProofs/Lemmas/PyCmp.lean)
+PROP = with_src(C03(), share=8, functions=[
+                    "_is_not_suffix", "_version_join", "_pad_version", "_version_split",
+                    "canonicalize_version__str", "canonicalize_version__object",
+                    "_BaseVersion.__lt__", "_BaseVersion.__le__", "_BaseVersion.__gt__", "_BaseVersion.__ge__",
+                    "_BaseVersion.__eq__", "Version.is_postrelease",
+                    "Specifier._compare_less_than", "Specifier._compare_greater_than",
+                    "Specifier._compare_less_than_equal", "Specifier._compare_greater_than_equal",
+                    "Specifier._compare_arbitrary", "Specifier._compare_equal", "Specifier._compare_not_equal",
+                    "Specifier._compare_compatible", "Specifier.contains", "Specifier.prereleases"],
+                module=["PkgProofs.Props.Src.Specifier", "PkgProofs.Props.Src.SpecCompare", "PkgProofs.Props.Src.SpecEqual",
+                        "PkgProofs.Props.Src.SpecContains"],
+                theorems=["Src._is_not_suffix_translated", "Src._is_not_suffix_eq_model",
+                          "Src._version_join_translated", "Src._version_join_eq_model",
+                          "Src._pad_version_translated", "Src._pad_version_eq_model",
+                          "Src.compare_translated", "Src.equal_translated",
+                          "PyRt.cmp_key", "PyRt.eq_key",
+                          "Src._BaseVersion.__lt___eq_model", "Src._BaseVersion.__le___eq_model",
+                          "Src._BaseVersion.__gt___eq_model", "Src._BaseVersion.__ge___eq_model",
+                          "Src._BaseVersion.__eq___eq_model", "Src.Version.is_postrelease_eq_model",
+                          "Src._version_split_eq_model", "Src.canonicalize_version__str_eq_model",
+                          "Src.canonicalize_version__object_eq_model",
+                          "Src.Specifier._compare_less_than_eq_model", "Src.Specifier._compare_greater_than_eq_model",
+                          "Src.Specifier._compare_less_than_equal_eq_model",
+                          "Src.Specifier._compare_greater_than_equal_eq_model",
+                          "Src.Specifier._compare_arbitrary_eq_model", "Src.Specifier._compare_equal_eq_model",
+                          "Src.Specifier._compare_not_equal_eq_model", "Src.Specifier._compare_compatible_eq_model",
+                          "Src.contains_translated", "Src.Specifier.prereleases_eq_model",
+                          "Src.get_operator_call_eq_model", "Src.Specifier.contains_eq_model"])
